@@ -32,5 +32,7 @@ def check(run):
                           H + 'set_attribute', H + 'remove_attribute',
                           H + 'is_mapping', H + 'is_sequence',
                           H + 'map_attribute_to_index',
-                          H + 'index_attribute_to_map'])
+                          H + 'index_attribute_to_map',
+                          H + 'seq_items',
+                          H + 'seq_attribute_to_map'])
     transforms_bounded(run)
